@@ -7,7 +7,7 @@ package = "scratch/@NAME@"
 :: lexer
 
 WhiteSpace: /[ \t\r\n ]+/ (space)
-word: /[\p{L}_][\p{L}\p{Nd}_]*/
+word: /[\p{L}_][\p{L}\p{Nd}_]*/ (class)
 greek: /[α-ω]+/ 1
 '→': /→/
 'é': /é/
